@@ -14,7 +14,7 @@
 From Coq Require Import List ZArith Bool NArith.
 Import ListNotations.
 
-Inductive exn := IndexError | TypeError.
+Inductive exn := IndexError | TypeError | OverflowError.
 
 Inductive access (T : Type) :=
 | Ok (x : T)
@@ -167,6 +167,21 @@ Definition df_collect (rows : list rowobj) (cols : list Z) (limit : option Z) : 
                      | Some l => if (l <? 0)%Z then (-1)%Z else l
                      end).
 
+(* DataFrame.collect as called from Python: the index vector is built by
+   numpy.array(indexes, dtype=numpy.int32), which raises OverflowError for a Python int outside the
+   int32 range (no wrap-around), and [limit] is converted to a C int at the call of collect_cython,
+   which raises OverflowError above INT_MAX (a negative limit was replaced by -1 before). *)
+Definition fits_int32 (z : Z) : bool := ((-2147483648 <=? z) && (z <=? 2147483647))%Z.
+
+Definition limit_fits (limit : option Z) : bool :=
+  match limit with
+  | None => true
+  | Some l => (l <=? 2147483647)%Z
+  end.
+
+Definition df_collect_conv (rows : list rowobj) (cols : list Z) (limit : option Z) : access (list (list A)) :=
+  if forallb fits_int32 cols && limit_fits limit then df_collect rows cols limit else Raise OverflowError.
+
 End Collect.
 
 Arguments RTuple {A}. Arguments RNone {A}. Arguments RSeq {A}. Arguments RScalar {A}.
@@ -174,7 +189,7 @@ Arguments py_len {A}. Arguments get_unchecked {A}. Arguments tuple_item_unchecke
 Arguments list_item_unchecked {A}. Arguments zip_cons {A}. Arguments transpose {A}.
 Arguments path1 {A}. Arguments path2 {A}. Arguments pathn {A}. Arguments collect_with {A}.
 Arguments dispatch {A}. Arguments collect {A}. Arguments collect_general {A}.
-Arguments get_def {A}. Arguments collect_def {A}. Arguments df_collect {A}.
+Arguments get_def {A}. Arguments collect_def {A}. Arguments df_collect {A}. Arguments df_collect_conv {A}.
 
 (* ---- the DataFrame as an OBJECT WITH STATE (dataframe.py:88-94 __init__, 136-144 append, 184-189
    materialize, 200-240 collect, 242-243 __getitem__, 418-421 rowcount, 439-441 __len__) ----
@@ -240,8 +255,8 @@ Definition push (s : store) (r : rowobj A) : store :=
 
 Definition step (s : store) (o : fop) : store * fout :=
   match o with
-  | OpCollect cols limit => (materialize s, FCols (df_collect (contents s) cols limit))
-  | OpGetitem cols => (materialize s, FCols (df_collect (contents s) cols None))
+  | OpCollect cols limit => (materialize s, FCols (df_collect_conv (contents s) cols limit))
+  | OpGetitem cols => (materialize s, FCols (df_collect_conv (contents s) cols None))
   | OpCollectUnknown => (materialize s, FValueError)
   | OpRowcount => (materialize s, FCount (length (contents s)))
   | OpMaterialize => (materialize s, FNone)
@@ -277,8 +292,8 @@ Definition is_read (o : fop) : bool :=
 (* what a reading operation returns on a frame whose rows are [rows] - no state, no history *)
 Definition read_out (rows : list (rowobj A)) (o : fop) : fout :=
   match o with
-  | OpCollect cols limit => FCols (df_collect rows cols limit)
-  | OpGetitem cols => FCols (df_collect rows cols None)
+  | OpCollect cols limit => FCols (df_collect_conv rows cols limit)
+  | OpGetitem cols => FCols (df_collect_conv rows cols None)
   | OpCollectUnknown => FValueError
   | OpRowcount => FCount (length rows)
   | OpMaterialize => FNone
@@ -323,6 +338,111 @@ End Extract.
 Arguments FKey {K}. Arguments FUnhashable {K}.
 Arguments lookup {K V}. Arguments dict_get_item {K V}. Arguments extract {K V}.
 
+(* ---- SESSIONS: several row classes and frames alive in one process ----
+   Row.create_class(fields, tuples_only) (row.py:196-214) builds a NEW class each time; DataFrame.__init__
+   builds an ordinary one for its schema (dataframe.py:91), converters.from_arrow a tuples-only one.
+   A class turns data into a row (Row.__new__, row.py:79-97): a dict goes through extract_dict_columns
+   with the class's own fields - unless the class is tuples-only, whose __new__ is tuple's, so a dict is
+   iterated (its keys); a tuple / list is taken as it is.  DataFrame.append(entry) uses the frame's own
+   class.  Objects are explicit here (a heap indexed by creation order) so that "what one object returns
+   depends only on that object's own definition and history, not on which other classes / frames were
+   built or used before" is a theorem (C10_session_local / C10_session_output), and so that sessions over several
+   objects with equal or overlapping field names are cases of the correspondence. *)
+Section Session.
+Variable A : Type.                 (* objects: cells, dictionary keys and field names alike *)
+Variable keq : A -> A -> bool.
+Variable none : A.
+
+Inductive rdata := DDict (d : list (A * A)) | DTuple (l : list A).
+
+Definition make_row (fields : list A) (tuples_only : bool) (data : rdata) : list A :=
+  match data with
+  | DTuple l => l
+  | DDict d => if tuples_only then map fst d
+               else extract keq none (Some d) (map (fun f => FKey f) fields)
+  end.
+
+Inductive obj :=
+| OClass (fields : list A) (tuples_only : bool)
+| OFrame (names : list A) (s : store A).
+
+Inductive action :=
+| AMake (data : rdata)             (* cls(data) *)
+| AFrame (o : fop A)               (* a call on the frame, as in Section Frame *)
+| AAppendDict (d : list (A * A)).  (* df.append({...}) *)
+
+Inductive sout :=
+| SNone
+| SRow (l : list A)
+| SFrameOut (f : fout A)
+| SBad.                            (* action addressed to the wrong kind of object / no such object *)
+
+Definition obj_step (o : obj) (a : action) : obj * sout :=
+  match o, a with
+  | OClass f t, AMake data => (o, SRow (make_row f t data))
+  | OFrame names s, AFrame op => (OFrame names (fst (step s op)), SFrameOut (snd (step s op)))
+  | OFrame names s, AAppendDict d =>
+      (OFrame names (fst (step s (OpAppend (make_row names false (DDict d))))),
+       SFrameOut (snd (step s (OpAppend (make_row names false (DDict d))))))
+  | _, _ => (o, SBad)
+  end.
+
+Inductive sop :=
+| NewClass (fields : list A) (tuples_only : bool)
+| NewFrame (k : backing) (names : list A) (rows : list (rowobj A))
+| On (i : nat) (a : action).
+
+Fixpoint set_nth {T : Type} (l : list T) (i : nat) (x : T) : list T :=
+  match l, i with
+  | [], _ => []
+  | _ :: r, O => x :: r
+  | y :: r, S j => y :: set_nth r j x
+  end.
+
+Definition sess_step (st : list obj) (op : sop) : list obj * sout :=
+  match op with
+  | NewClass f t => (st ++ [OClass f t], SNone)
+  | NewFrame k names rows => (st ++ [OFrame names (frame_init k rows)], SNone)
+  | On i a => match nth_error st i with
+              | Some o => (set_nth st i (fst (obj_step o a)), snd (obj_step o a))
+              | None => (st, SBad)
+              end
+  end.
+
+Fixpoint sess_run (st : list obj) (ops : list sop) : list sout :=
+  match ops with
+  | [] => []
+  | op :: r => snd (sess_step st op) :: sess_run (fst (sess_step st op)) r
+  end.
+
+Fixpoint sess_state (st : list obj) (ops : list sop) : list obj :=
+  match ops with
+  | [] => st
+  | op :: r => sess_state (fst (sess_step st op)) r
+  end.
+
+(* the actions of a session that are addressed to object i, in order *)
+Fixpoint actions_on (i : nat) (ops : list sop) : list action :=
+  match ops with
+  | [] => []
+  | On j a :: r => if Nat.eqb j i then a :: actions_on i r else actions_on i r
+  | _ :: r => actions_on i r
+  end.
+
+(* one object on its own *)
+Fixpoint obj_after (o : obj) (acts : list action) : obj :=
+  match acts with
+  | [] => o
+  | a :: r => obj_after (fst (obj_step o a)) r
+  end.
+
+End Session.
+Arguments DDict {A}. Arguments DTuple {A}. Arguments make_row {A}. Arguments OClass {A}. Arguments OFrame {A}.
+Arguments AMake {A}. Arguments AFrame {A}. Arguments AAppendDict {A}. Arguments SNone {A}. Arguments SRow {A}.
+Arguments SFrameOut {A}. Arguments SBad {A}. Arguments obj_step {A}. Arguments NewClass {A}. Arguments NewFrame {A}.
+Arguments On {A}. Arguments sess_step {A}. Arguments sess_run {A}. Arguments sess_state {A}.
+Arguments actions_on {A}. Arguments obj_after {A}.
+
 (* ---- calculate_data_width (compiled.pyx:157-168) ----
    An element is None, or an object with its rendering str(v) as code points. *)
 Fixpoint width_loop (vals : list (option (list N))) (max_width : Z) : Z :=
@@ -341,6 +461,7 @@ Inductive obs :=
 | ORes (r : list (list Z))     (* returned; the array as a list of columns *)
 | OIndexError
 | OTypeError
+| OOverflowError
 | OOtherExc                    (* some other Python exception *)
 | ODied.                       (* the sacrificial process was killed *)
 
@@ -352,6 +473,7 @@ Definition obs_matches (m : access (list (list Z))) (o : obs) : bool :=
   | Ok r, ORes r' => llz_eqb r r'
   | Raise IndexError, OIndexError => true
   | Raise TypeError, OTypeError => true
+  | Raise OverflowError, OOverflowError => true
   | UB, ODied => true            (* a model UB is never acceptable as a normal outcome *)
   | _, _ => false
   end.
@@ -362,9 +484,9 @@ Definition c10_collect_show (c : list (rowobj Z) * list Z * Z * obs) :=
   let '(rows, cols, limit, o) := c in collect rows cols limit.
 
 Definition c10_df_check (c : list (rowobj Z) * list Z * option Z * obs) : bool :=
-  let '(rows, cols, limit, o) := c in obs_matches (df_collect rows cols limit) o.
+  let '(rows, cols, limit, o) := c in obs_matches (df_collect_conv rows cols limit) o.
 Definition c10_df_show (c : list (rowobj Z) * list Z * option Z * obs) :=
-  let '(rows, cols, limit, o) := c in df_collect rows cols limit.
+  let '(rows, cols, limit, o) := c in df_collect_conv rows cols limit.
 
 (* extract: keys and values interned as integers by the harness; value None = None *)
 Definition oz_eqb (a b : option Z) : bool :=
@@ -421,3 +543,33 @@ Definition c10_dfseq_check (c : backing * list (rowobj Z) * list (fop Z) * list 
   let '(k, rows, ops, os) := c in fouts_match (run (frame_init k rows) ops) os.
 Definition c10_dfseq_show (c : backing * list (rowobj Z) * list (fop Z) * list fobs) :=
   let '(k, rows, ops, os) := c in run (frame_init k rows) ops.
+
+(* ---- sessions over several row classes and frames (stream "sess"); objects interned as integers,
+   None = 0, key equality = equality of the interned ids ---- *)
+Inductive sobs :=
+| XNone
+| XRow (l : list Z)
+| XFrame (q : fobs)
+| XExc.
+
+Definition lz_eqb (a b : list Z) : bool := if list_eq_dec Z.eq_dec a b then true else false.
+
+Definition sout_matches (m : sout Z) (o : sobs) : bool :=
+  match m, o with
+  | SNone, XNone => true
+  | SRow l, XRow l' => lz_eqb l l'
+  | SFrameOut f, XFrame q => fout_matches f q
+  | _, _ => false
+  end.
+
+Fixpoint souts_match (ms : list (sout Z)) (os : list sobs) : bool :=
+  match ms, os with
+  | [], [] => true
+  | m :: mr, o :: orr => sout_matches m o && souts_match mr orr
+  | _, _ => false
+  end.
+
+Definition c10_sess_check (c : list (sop Z) * list sobs) : bool :=
+  let '(ops, os) := c in souts_match (sess_run Z.eqb 0%Z [] ops) os.
+Definition c10_sess_show (c : list (sop Z) * list sobs) :=
+  let '(ops, os) := c in sess_run Z.eqb 0%Z [] ops.
